@@ -5,6 +5,7 @@
 package gabi
 
 import (
+	"github.com/privacybydesign/gabi/internal/simhook"
 	"slices"
 
 	"github.com/go-errors/errors"
@@ -60,6 +61,7 @@ func (b *NonRevocationProofBuilder) UpdateCommit(witness *revocation.Witness) er
 		return nil
 	}
 	b.witness = witness
+	simhook.Yield("UpdateCommit:before-commit-update")
 	b.commit.Update(b.commitments, witness)
 	b.index = witness.SignedAccumulator.Accumulator.Index
 	return nil
@@ -193,11 +195,16 @@ func (ic *Credential) CreateDisclosureProofBuilder(
 }
 
 func (ic *Credential) nonrevConsumeBuilder() (*NonRevocationProofBuilder, error) {
+	simhook.Yield("nonrevConsumeBuilder:before-select")
+	if simhook.Buggify("nonrevConsumeBuilder:force-miss") {
+		return ic.NonrevBuildProofBuilder()
+	}
 	// Using either the channel value or a new one ensures that our output is used at most once,
 	// lest we totally break security: reusing randomizers in a second session makes it possible
 	// for the verifier to compute our revocation witness e from the proofs
 	select {
 	case b := <-ic.nonrevCache:
+		simhook.Yield("nonrevConsumeBuilder:received")
 		return b, b.UpdateCommit(ic.NonRevocationWitness)
 	default:
 		return ic.NonrevBuildProofBuilder()
@@ -211,13 +218,16 @@ func (ic *Credential) NonrevPrepareCache() error {
 	if ic.NonRevocationWitness == nil {
 		return nil
 	}
+	simhook.Yield("NonrevPrepareCache:before-niltest")
 	if ic.nonrevCache == nil {
 		ic.nonrevCache = make(chan *NonRevocationProofBuilder, 1)
+		simhook.Yield("NonrevPrepareCache:after-make")
 	}
 	var b *NonRevocationProofBuilder
 	var err error
 	select {
 	case b = <-ic.nonrevCache:
+		simhook.Yield("NonrevPrepareCache:received")
 		Logger.Trace("updating existing nonrevocation commitment")
 		err = b.UpdateCommit(ic.NonRevocationWitness)
 	default:
@@ -230,6 +240,7 @@ func (ic *Credential) NonrevPrepareCache() error {
 
 	// put it back in the channel, waiting to be consumed by nonrevConsumeBuilder()
 	// if the channel has already been populated by another goroutine in the meantime we just discard
+	simhook.Yield("NonrevPrepareCache:before-putback")
 	select {
 	case ic.nonrevCache <- b:
 	default:
